@@ -282,7 +282,7 @@ Section Batches.
     unfold batches. split.
     - intros Hs Hn. destruct s as [|x t]; [congruence|].
       cbn [length Nat.eqb orb]. destruct (Z.leb_spec n 0); [lia|].
-      destruct (batches_loop_spec (Z.to_nat n) (x :: t)) with (fuel := length (x :: t)) (i := 0) as [H1 H2]; try lia.
+      destruct (batches_loop_spec (Z.to_nat (Z.min n (Z.of_nat (length (x :: t))))) (x :: t)) with (fuel := length (x :: t)) (i := 0) as [H1 H2]; try (cbn [length]; lia).
       split; [exact H1|]. eapply Forall_impl; [|exact H2]. cbn beta. intros b Hb. lia.
     - intros [H|H].
       + subst s. reflexivity.
